@@ -173,6 +173,14 @@ class FuseSuccessiveClipRelu(_FuseReluClipBase):
 class FuseSuccessiveReluClip(FuseSuccessiveClipRelu):
     """Replaces ``Relu(Clip(X))`` with ``Clip(X)``."""
 
+    def compute_clip_min_max(self, first_clip_node: ir.Node, _):
+        # Relu(min(max(x, lo), hi)) = min(max(x, max(lo, 0)), max(hi, 0))
+        min_clip, max_clip = super().compute_clip_min_max(first_clip_node, _)
+        if max_clip is not None:
+            max_np = max_clip.numpy()
+            max_clip = ir.tensor(np.array(np.maximum(0.0, max_np), dtype=max_np.dtype))
+        return min_clip, max_clip
+
     def pattern(self, op, x):
         return op.Relu(op.Clip(x, _allow_other_inputs=True, _outputs=["out_first_clip"]))
 
